@@ -6,7 +6,7 @@ import os
 import vlib
 
 INVS = ("TypeOK MachineMatchesOutcome InitiatorOnlyNeverDeliversRequest ResponderOnlyNeverDeliversResponse "
-        "StartedIffEnabled EnabledIsReachable LocalOptInOnlyAffectsOwnInitiator")
+        "StartedIffEnabled EnabledIsReachable LocalOptInOnlyAffectsOwnInitiator StopRemovesExactlyThatPair")
 
 
 def legacy_selftest(chk):
@@ -31,6 +31,17 @@ def legacy_selftest(chk):
         raise vlib.MachineryError("the opt-in design (keep-alive constructed only with the local option) should violate %s, "
                                   "TLC reported %s" % (sorted(need), violated))
     chk.extra["optin_design_rejected_by_tlc"] = violated
+    # the same for the history dimension: "unregistering one role drops the protocol number's whole entry" leaves the
+    # surviving role of a stopped protocol unreachable (a smaller version window: every violating state is printed)
+    r = vlib.run_tlc("net/Connection", cfg="ConnectionDropId.cfg", timeout=400, workers=2, deadlock=False, continue_=True)
+    if r.error:
+        raise vlib.MachineryError("Connection/ConnectionDropId.cfg: %s" % r.error)
+    violated = sorted(set(getattr(r, "violated", [])))
+    need = {"StartedIffEnabled", "StopRemovesExactlyThatPair"}
+    if not need <= set(violated):
+        raise vlib.MachineryError("the drop-id design (stopping one role unregisters both roles of the protocol number) should "
+                                  "violate %s, TLC reported %s" % (sorted(need), violated))
+    chk.extra["dropid_design_rejected_by_tlc"] = violated
 
 
 def binding_selftest(chk, drv, cases):
@@ -73,7 +84,12 @@ def run(chk, replay=None):
                 "that never goes on the wire (lka = WithKeepAlive on/off): half (A) does not depend on it, it may only decide "
                 "whether the application's own keep-alive initiator runs (expectation 'any' for that one pair when off), and "
                 "LocalOptInOnlyAffectsOwnInitiator states that instances, responders, every other pair and the muxer mode are "
-                "the same with the option on and off. Each case is replayed on a real "
+                "the same with the option on and off. A configuration may also carry a HISTORY (stop = one (protocol, role) pair "
+                "the negotiation obliged the connection to run, stopped between set-up and the probe: Client.Stop()/Server.Stop() -> "
+                "Protocol.Stop -> muxer.UnregisterProtocol): StopRemovesExactlyThatPair states that exactly that pair leaves the "
+                "registered set, so the opposite role of the same protocol number and every other obliged pair stay registered and a "
+                "segment for them is delivered (StartedIffEnabled / EnabledIsReachable are stated about Live = Required minus the "
+                "stopped pair); about a segment for the stopped role itself the property is silent ('any'). Each case is replayed on a real "
                 "ouroboros.Connection over an in-memory pipe against a raw peer that performs the handshake by hand (selecting the "
                 "row's version, diffusion mode and peer-sharing flag; the connection is created with the row's WithKeepAlive) and then writes the one segment (well-formed first request of "
                 "that protocol / a responder message). Observed through the accessors, the muxer hooks (Reg, Deliver, Err), the "
@@ -83,6 +99,7 @@ def run(chk, replay=None):
         "expectations (which version carries which protocol, duplex only from NtN v10) are my transcription of the network specification / CIP-0137",
         "the Leios trio (ids 18-20, CIP-0164 prototype, no version assigned) is left open on node-to-node connections ('any'), but only in the negotiated roles; a refusing peer-sharing instance is allowed where peer sharing was not negotiated, its callback must not run",
         "WithKeepAlive is a case dimension (keys of the rows with the option off end in :lka=0 before the segment); with the option off the keep-alive initiator may or may not be registered (the application's own choice), everything else is demanded as with the option on; every row is run with the option on (on node-to-client/DMQ it must be without effect); with the option off the quick tier runs the node-to-node rows that have peer sharing off on both sides, the thorough tier every row",
+        "histories: one stopped role per connection, stopped through the API by the local application (keys carry :stop=<id>/<role> before the segment); a role stopping because the PEER sent Done, and restarts, are not taken; quick tier: the duplex node-to-node configurations with the keep-alive option on and peer sharing set alike on both sides, every obliged pair stopped in turn, probed with both directions of every enabled protocol; thorough: every configuration; a history that cannot be established (Stop does not unregister) is a machinery failure",
         "WithDelayProtocolStart/WithDelayMuxerStart are not used",
         "which error closes the connection is not compared (a gate-case rejected because no receiver is registered counts as closed with an error); an error for a merely unroutable segment is recorded, not required",
         "one inbound segment per connection; the peer's diffusion / peer-sharing flags exist only in node-to-node version data, so node-to-client and DMQ rows have none",
